@@ -212,12 +212,7 @@ Lemma acquire_x_facts cf s c k l :
   produced s' = produced s /\ cur s' = cur s /\ dicts s' = dicts s /\ currsize s' = currsize s /\
   (r = RLockErr \/ r = RBlocked) /\
   (phase s' c = CIdle \/ phase s' c = CEntryCk k \/ phase s' c = CLockWait k l (now s) (cur s)).
-Proof.
-  unfold acquire_x. destruct (Lock.owner (locks s l)); destruct (Lock.waiters (locks s l));
-    try (cbn [fst snd]; sm; rewrite upd_same; auto 10).
-  all: rewrite lock_do_eq; destruct (snd (Lock.step _ _)); rewrite ?lock_do_eq; cbn [fst snd]; sm;
-    rewrite ?upd_same; auto 10.
-Qed.
+Proof. unfold acquire_x. cbn [fst snd]. sm. rewrite upd_same. auto 10. Qed.
 
 Definition fresh_k (k : key) (ck : nat) (d : list slot) : Prop := forall y, In y d -> sk y = k -> ck <= ss y.
 
